@@ -51,10 +51,11 @@ Definition val_in (x : val) (s : val) : bool :=
 Definition key_leb (a b : val * nat) : bool :=
   match fst a, fst b with
   | VStr s, VStr t => match String.compare s t with Gt => false | _ => true end
+  | VInt x, VInt y => Z.leb x y
   | _, _ => true
   end.
 Fixpoint insert_item (x : val * nat) (l : list (val * nat)) : list (val * nat) :=
   match l with [] => [x] | y :: t => if key_leb x y then x :: l else y :: insert_item x t end.
 Definition sorted_items (t : list (val * nat)) : list (val * nat) := fold_right insert_item [] t.
 Definition items_leaf (t : list (val * nat)) : val :=
-  VTuple (map (fun kv => VTuple [fst kv; VNat (snd kv)]) (sorted_items t)).
+  VTuple (map (fun kv => VTuple [fst kv; VInt (Z.of_nat (snd kv))]) (sorted_items t)).
